@@ -97,9 +97,77 @@ theorem C13_fails_asis_shortheader (c : WalCfg) (hc : c = { WalCfg.good with sho
   subst hc
   decide +kernel
 
-/-- What still holds on the pinned tree: `C13_roundtrip` and `C13_cut` (they do not depend on the
-short-header rule), and reopen-append for every cut that does not leave 1–3 bytes of a header,
-here stated for cuts on a record boundary. -/
+/-- **Whole histories (strongest form).**  Any interleaving of typed appends, rotations and
+*crash/recover rounds* (`.crash n`: the newest segment keeps its first `n` bytes — any `n` —, then
+`wal.VerifyDir`, then `wal.Open`), any number of rounds, any segment size, any checksum function:
+replay yields exactly the record lists of the specification `gRun` (a function on record lists
+only: append/rotate as above, a crash keeps of the newest segment the records wholly inside its
+first `n` bytes), oldest segment first, status ok.  Subsumes `C13_roundtrip` (no crash),
+`C13_cut`+VerifyDir and `C13_reopen_append` (one crash) — nothing appended after a recovery is
+ever lost, nothing torn is ever replayed. -/
+theorem C13_history (c : WalCfg) (hc : c.Good) (crc : Bytes → Nat) (segSize : Nat) (xs : List XOp)
+    (hr : ∀ r ∈ appendedX xs, RecOK r) :
+    replaySegs c crc (runX c crc segSize (openSegs []) xs) = (flatR (gRun segSize [[]] xs), .ok) := by
+  have hfresh := clean_fresh crc
+  simp only [openSegs] at hfresh ⊢
+  exact replaySegs_clean c crc _ _ (runX_clean c hc crc segSize xs ⟨1, []⟩ [] [] [] hfresh hr)
+
+/-- After the last crash/recover round of a history the directory on disk is byte-for-byte the
+encoding of the specification's record lists (so `VerifyDir` left no stray byte anywhere). -/
+theorem C13_history_bytes (c : WalCfg) (hc : c.Good) (crc : Bytes → Nat) (segSize : Nat) (xs : List XOp)
+    (hr : ∀ r ∈ appendedX xs, RecOK r) :
+    (runX c crc segSize (openSegs []) xs).map (·.data) = (gRun segSize [[]] xs).map (encodeAll crc) := by
+  have hfresh := clean_fresh crc
+  simp only [openSegs] at hfresh ⊢
+  exact (runX_clean c hc crc segSize xs ⟨1, []⟩ [] [] [] hfresh hr).1
+
+/-
+FULL-STRENGTH STATEMENT the property demands for reopen-and-append: `C13_reopen_append` above
+(every history, every cut offset n, VerifyDir ok, reopen with any segment size, any further
+history: replay = records before the cut ++ records appended after) — and, for any number of
+rounds, `C13_history`.  Both need the *good* configuration (`wal.shortHeader = partial`).
+
+The two theorems below are what remains true when the short-header rule is the pinned one
+(`DecodeRecord` maps a 1–3-byte header to io.EOF).  They are not weaker because a proof is
+missing: for cuts that leave 1–3 bytes of a header the claim is FALSE there
+(`C13_fails_asis_shortheader`, reproduced on the real code before commit 2a8dc23).
+* `C13_reopen_append_nofragment_partial`: the full reopen-append claim for every cut offset
+  except those leaving a 1–3-byte header fragment — exactly the complement of the defect.
+* `C13_partial` (kind lemma now; superseded): the special case "no cut at all".
+-/
+
+/-- Reopen-and-append under ANY short-header rule, for every cut offset `n` whose torn remainder
+(`torn crc n g0`: the bytes of the cut file behind its last complete record) is empty or at
+least 4 bytes long. -/
+theorem C13_reopen_append_nofragment_partial (c : WalCfg)
+    (hc : c.replayPartialOk = true ∧ c.verifyTruncPartial = true ∧ c.verifyStep = 8)
+    (crc : Bytes → Nat) (segSize segSize2 : Nat)
+    (ops ops2 : List Op) (hr : ∀ r ∈ appended ops, RecOK r) (hr2 : ∀ r ∈ appended ops2, RecOK r) :
+    ∃ (s : Seg) (older : List Seg) (g0 : List Rec) (gs : List (List Rec)),
+      runOps crc segSize (openSegs []) ops = s :: older ∧
+      s.data = encodeAll crc g0 ∧ flatR gs ++ g0 = appended ops ∧
+      ∀ n, ((torn crc n g0).length = 0 ∨ 4 ≤ (torn crc n g0).length) →
+        (verifySegs c crc (cutHead n (s :: older))).2 = .ok ∧
+        replaySegs c crc (runOps crc segSize2 (openSegs (verifySegs c crc (cutHead n (s :: older))).1) ops2)
+          = (flatR gs ++ wholly n g0 ++ appended ops2, .ok) := by
+  obtain ⟨_, htr, hst⟩ := hc
+  have hfresh := clean_fresh crc
+  simp only [openSegs] at hfresh
+  obtain ⟨s', older', g0', gs', he, hcl, hf⟩ := runOps_clean crc segSize ops ⟨1, []⟩ [] [] [] hfresh hr
+  refine ⟨s', older', g0', gs', by simpa [openSegs] using he, ?_, ?_, ?_⟩
+  · have := hcl.1; simp only [List.map_cons, List.cons.injEq] at this; exact this.1
+  · simpa [flatR] using hf
+  · intro n hfrag
+    obtain ⟨sv, hv, hclv⟩ := verifySegs_cut_gen c hst htr crc s' older' g0' gs' hcl n (Or.inr hfrag)
+    rw [hv]
+    refine ⟨rfl, ?_⟩
+    simp only [openSegs]
+    obtain ⟨s2, o2, g2, gs2, e2, c2, f2⟩ := runOps_clean crc segSize2 ops2 sv older' (wholly n g0') gs' hclv hr2
+    rw [e2, replaySegs_clean c crc _ _ c2, f2]
+    simp [flatR]
+
+/-- Superseded special case of `C13_reopen_append_nofragment_partial` (no cut): VerifyDir on an
+intact log is a no-op and appending after reopen loses nothing, for every configuration. -/
 theorem C13_partial (c : WalCfg) (_hc : c.replayPartialOk = true ∧ c.verifyTruncPartial = true ∧ c.verifyStep = 8)
     (crc : Bytes → Nat) (segSize segSize2 : Nat)
     (ops ops2 : List Op) (hr : ∀ r ∈ appended ops, RecOK r) (hr2 : ∀ r ∈ appended ops2, RecOK r) :
@@ -130,5 +198,18 @@ example :
         (runOps crc32c 65536 (openSegs (verifySegs WalCfg.good crc32c
           (cutHead 13 (runOps crc32c 65536 (openSegs []) witnessOps))).1) witnessMore)
       = ([⟨1, [0x61, 0x61]⟩, ⟨3, [0xaa]⟩], .ok) := by decide +kernel
+
+/-- a history with two crash/recover rounds under the good configuration: records 1 and 2, crash
+2 bytes into the header of record 2, record 3, crash inside record 3's payload, record 4 —
+replay yields exactly 1 and 4; and the specification computes the same without any bytes -/
+example :
+    replaySegs WalCfg.good crc32c (runX WalCfg.good crc32c 65536 (openSegs [])
+        [.op (.append ⟨1, [0x61, 0x61]⟩), .op (.append ⟨2, [0x62, 0x62]⟩), .crash 13,
+         .op (.append ⟨3, [0xaa]⟩), .crash 17, .op .rotate, .op (.append ⟨4, []⟩)])
+      = ([⟨1, [0x61, 0x61]⟩, ⟨4, []⟩], .ok)
+    ∧ flatR (gRun 65536 [[]]
+        [.op (.append ⟨1, [0x61, 0x61]⟩), .op (.append ⟨2, [0x62, 0x62]⟩), .crash 13,
+         .op (.append ⟨3, [0xaa]⟩), .crash 17, .op .rotate, .op (.append ⟨4, []⟩)])
+      = [⟨1, [0x61, 0x61]⟩, ⟨4, []⟩] := by decide +kernel
 
 end NoKV.Props.C13
